@@ -214,3 +214,73 @@ theorem parseExpr_add (o : KeyOracle) (ctx : Ctx) (e : List Char) :
   | succ k ih => rw [← Nat.add_assoc, parseExpr_succ o _ ctx e (by omega), ih]
 
 end Btc.Desc
+
+namespace Btc.Desc
+open Btc Gen.Descriptor
+
+/-- nesting of braces in a parsed tree. -/
+def treeHeight : Tree → Nat
+  | .branch l r => max (treeHeight l) (treeHeight r) + 1
+  | _ => 0
+
+theorem map_height {α : Type} (f : α → Tree) (hf : ∀ a, treeHeight (f a) = 0) (x : P α) (t : Tree)
+    (h : x.map f = .ok t) : treeHeight t = 0 := by
+  cases x with
+  | error e => simp [Except.map] at h
+  | ok a => simp only [Except.map, Except.ok.injEq] at h; rw [← h]; exact hf a
+
+/-- `_parse_tree`'s depth guard on C14's model: a tree accepted at `depth` enclosing braces nests at most
+    `MAX_TREE_DEPTH - depth` further, on the left and on the right alike. -/
+theorem parseTree_depth (o : KeyOracle) : ∀ (fuel depth : Nat) (e : List Char) (t : Tree),
+    parseTree o fuel depth e = .ok t → depth + treeHeight t ≤ MAX_TREE_DEPTH := by
+  intro fuel
+  induction fuel with
+  | zero => intro depth e t h; simp [parseTree] at h
+  | succ n ih =>
+    intro depth e t h
+    rw [parseTree] at h
+    split at h
+    · cases h
+    · rename_i hd
+      split at h
+      · split at h
+        · cases h
+        · split at h
+          · cases h
+          · split at h
+            · cases h
+            · rename_i tl hl
+              split at h
+              · cases h
+              · rename_i tr hr
+                simp only [Except.ok.injEq] at h
+                have a := ih _ _ _ hl
+                have b := ih _ _ _ hr
+                rw [← h]
+                simp only [treeHeight]
+                omega
+          · cases h
+      · -- a leaf: height 0
+        have hleaf : treeHeight t = 0 := by
+          simp only at h
+          split at h
+          · cases h
+          · split at h
+            · split at h
+              · cases h
+              · split at h
+                · cases h
+                · simp only [Except.ok.injEq] at h; rw [← h]; rfl
+            · split at h
+              · cases h
+              · split at h
+                · split at h
+                  · cases h
+                  · split at h
+                    · cases h
+                    · exact map_height _ (fun _ => rfl) _ t h
+                · cases h
+                · exact map_height _ (fun _ => rfl) _ t h
+        omega
+
+end Btc.Desc
